@@ -12,7 +12,7 @@ from . import sim
 class PedScenario:
     def __init__(self, rng, n_contigs=2, n_trios=1, quartet=False, n_singles=1, n_variants=(4, 9), depth=(3, 6),
                  read_len=(120, 400), het_prob=0.6, recomb_prob=0.5, gt_error_prob=0.0, kinds=("snv",),
-                 contig_len=(500, 1100), shuffle_samples=True):
+                 contig_len=(500, 1100), shuffle_samples=True, empty_last_contig=False):
         self.rng = rng
         self.contigs, self.variants, self.haps = {}, {}, {}
         self.trios = []          # (father, mother, child)
@@ -36,13 +36,16 @@ class PedScenario:
             vs = sim.make_variants(rng, name, seq, nv, kinds=kinds, min_gap=22)
             self.variants[name] = vs
             n = len(vs)
+            all_ref = empty_last_contig and ci == n_contigs - 1   # nothing to phase for anybody on this contig
             for s in self.samples:
                 if s in children:
                     continue
                 h0, h1 = [], []
                 for _ in vs:
                     a = rng.randrange(2)
-                    if rng.random() < het_prob:
+                    if all_ref:
+                        h0.append(0); h1.append(0)
+                    elif rng.random() < het_prob:
                         h0.append(a); h1.append(1 - a)
                     else:
                         h0.append(a); h1.append(a)
